@@ -599,4 +599,309 @@ theorem reuse_hist' (arc : ArcFn α β) (posInf : α) (z : Renderer α β) (A : 
   rw [runOps_append]
   exact congrArg _ (reset_rast_forgets arc posInf _ _ r vb pal [] (fun _ h => by cases h) B hB).1
 
+/-! ## (e) C04 over histories: `SetRasterizer` does not touch the machine; the LOD test uses the current height -/
+
+theorem stepOp_call (arc : ArcFn α β) (posInf : α) (z : Renderer α β) (c : Call α) :
+    z.stepOp arc posInf (.call c) = z.step arc posInf c := rfl
+theorem stepOp_rast (arc : ArcFn α β) (posInf : α) (z : Renderer α β) (r : Rect) :
+    z.stepOp arc posInf (.rast r) = (z.setRasterizer r, []) := rfl
+
+/-- `SetRasterizer` leaves the represented machine state (palette, registers, selectors, LOD) alone … -/
+theorem abs_setRasterizer (z : Renderer α β) (r : Rect) : absVM (z.setRasterizer r) = absVM z := rfl
+/-- … and the paint and the `disabled` flag of the current path -/
+theorem paintSt_setRasterizer (z : Renderer α β) (r : Rect) : paintSt (z.setRasterizer r) = paintSt z := rfl
+
+/-- the specification's machine over histories: `SetRasterizer` is not an instruction -/
+def vmStepOp (posInf : α) (m : VM α) : RenOp α → VM α
+  | .call c => m.step posInf c
+  | .rast _ => m
+
+theorem stepOp_abs (arc : ArcFn α β) (posInf : α) (z : Renderer α β) (op : RenOp α) :
+    absVM (z.stepOp arc posInf op).1 = vmStepOp posInf (absVM z) op := by
+  cases op with
+  | call c => exact step_abs arc posInf z c
+  | rast r => rfl
+
+/-- every history commutes with the abstraction: the machine state a long-lived Renderer represents is
+    the fold of the specification's instructions, `SetRasterizer` being skipped -/
+theorem runOps_abs (arc : ArcFn α β) (posInf : α) (h : List (RenOp α)) :
+    ∀ z : Renderer α β, absVM (z.runOps arc posInf h).1 = h.foldl (vmStepOp posInf) (absVM z) := by
+  induction h with
+  | nil => intro z; rfl
+  | cons op ops ih => intro z; rw [runOps_cons, ih, stepOp_abs, List.foldl_cons]
+
+/-- **(e) styling calls are unaffected by `SetRasterizer`**: each of the six styling calls (including
+    `Reset`) commutes with it — same state whichever comes first, no rasteriser call. -/
+theorem styling_comm_rast (arc : ArcFn α β) (posInf : α) (z : Renderer α β) (r : Rect) (c : Call α)
+    (hc : isStyling c = true) :
+    (z.setRasterizer r).step arc posInf c = ((z.step arc posInf c).1.setRasterizer r, []) := by
+  cases c <;> simp only [isStyling, Bool.false_eq_true] at hc
+  case reset vb pal => rfl
+  case setCSel v => rfl
+  case setNSel v => rfl
+  case setLOD a b => rfl
+  case setCReg adj incr col => cases incr <;> rfl
+  case setNReg adj incr f => cases incr <;> rfl
+
+/-- whether `StartPath`'s colour switch disables the path does not depend on the rectangle -/
+theorem choose_flag_setRasterizer (z : Renderer α β) (r : Rect) (adj : UInt8) :
+    (choose (z.setRasterizer r) adj).2 = (choose z adj).2 := by
+  rw [choose_spec, choose_spec, abs_setRasterizer]
+  dsimp only
+  by_cases hp : premul ((absVM z).cReg (sub (absVM z).cSel adj))
+  · simp only [if_pos hp]
+  · simp only [if_neg hp]
+    by_cases hg : isGradient ((absVM z).cReg (sub (absVM z).cSel adj))
+    · simp only [if_pos hg]
+      by_cases hv : stopsValid ((absVM z).gradSpec ((absVM z).cReg (sub (absVM z).cSel adj))).stops ∧
+          2 ≤ ((absVM z).gradSpec ((absVM z).cReg (sub (absVM z).cSel adj))).stops.length
+      · simp only [if_pos hv]
+      · simp only [if_neg hv]
+    · simp only [if_neg hg]
+
+/-- **(e) `StartPath` after `SetRasterizer r` tests LOD against the height of `r`**: it follows the
+    machine's `paintChoice` evaluated at `(norm r).dy`, in the unchanged machine state of `z`. -/
+theorem startPath_after_rast (z : Renderer α β) (r : Rect) (adj : UInt8) (x y : α) :
+    match (absVM z).paintChoice (Rect.norm r).dy adj with
+    | some p => (z.setRasterizer r).startPath adj x y =
+        (started (z.setRasterizer r) (realise (z.setRasterizer r) p) x y,
+          [.reset (Rect.norm r).dx (Rect.norm r).dy,
+           .moveTo ((z.setRasterizer r).absX x) ((z.setRasterizer r).absY y)])
+    | none => (z.setRasterizer r).startPath adj x y =
+        ({ z.setRasterizer r with fill := (choose (z.setRasterizer r) adj).1, disabled := true }, []) :=
+  startPath_paint (z.setRasterizer r) adj x y
+
+theorem startPath_after_rast_enabled_iff (z : Renderer α β) (r : Rect) (adj : UInt8) (x y : α) :
+    ((z.setRasterizer r).startPath adj x y).1.disabled = false ↔
+      ((absVM z).paintChoice (Rect.norm r).dy adj).isSome = true :=
+  startPath_enabled_iff (z.setRasterizer r) adj x y
+
+/-! ### the paints of a whole history -/
+
+/-- the pixel-space matrix of a gradient for target rectangle `R` and viewBox `vb`: what `initGradient`
+    computes when the transform is the recalculated one -/
+def gradMatrixAt (R : Rect) (vb : ViewBox α) (g : GradSpec α) : Aff3 β :=
+  let sx : α := Arith.ofInt R.dx / (vb.maxX - vb.minX)
+  let sy : α := Arith.ofInt R.dy / (vb.maxY - vb.minY)
+  let one : β := Arith.ofInt 1
+  let invZSX := one / Wide.widen sx
+  let invZSY := one / Wide.widen sy
+  let zBX : β := Wide.widen (-vb.minX)
+  let zBY : β := Wide.widen (-vb.minY)
+  let a : β := Wide.widen g.a
+  let b : β := Wide.widen g.b
+  let c : β := Wide.widen g.c
+  let d : β := Wide.widen g.d
+  let e : β := Wide.widen g.e
+  let f : β := Wide.widen g.f
+  ⟨a * invZSX, b * invZSY, c - a * zBX - b * zBY, d * invZSX, e * invZSY, f - d * zBX - e * zBY⟩
+
+/-- the paint a prescribed `PaintSpec` becomes for target rectangle `R` and viewBox `vb` — a function of
+    the specification-level data only (no Renderer state) -/
+def realiseAt (R : Rect) (vb : ViewBox α) : PaintSpec α → Paint β
+  | .flat c => .flat c
+  | .gradient g => .gradient (Gradient.init g.shape g.spread (gradMatrixAt R vb g) (g.stops.map stopOf)).1
+
+theorem pix2Grad_of_transformOK (z : Renderer α β) (h : TransformOK z) (g : GradSpec α) :
+    pix2Grad z g = gradMatrixAt z.r z.viewBox g := by
+  obtain ⟨h1, h2, h3, h4⟩ := h
+  simp only [pix2Grad, gradMatrixAt, ← h1, ← h2, ← h3, ← h4]
+
+theorem realise_of_transformOK (z : Renderer α β) (h : TransformOK z) : realise z = realiseAt z.r z.viewBox := by
+  funext p
+  cases p with
+  | flat c => rfl
+  | gradient g => simp only [realise, realiseAt, pix2Grad_of_transformOK z h]
+
+/-- The specification side of a history: the machine state, the target rectangle (changed by
+    `SetRasterizer`) and the viewBox (changed by `Reset`) are threaded through the events; each `StartPath`
+    contributes the paint the machine prescribes AT THE HEIGHT OF THE CURRENT RECTANGLE, realised for the
+    current rectangle and viewBox, to be drawn over the current rectangle. -/
+def paintsH (posInf : α) : Rect → ViewBox α → VM α → List (RenOp α) → List (Rect × Paint β)
+  | _, _, _, [] => []
+  | _, vb, m, .rast r :: ops => paintsH posInf (Rect.norm r) vb m ops
+  | R, _, _, .call (.reset vb' pal) :: ops => paintsH posInf R vb' (VM.init posInf pal) ops
+  | R, vb, m, .call (.startPath adj _ _) :: ops =>
+    match m.paintChoice R.dy adj with
+    | some p => (R, realiseAt R vb p) :: paintsH posInf R vb m ops
+    | none => paintsH posInf R vb m ops
+  | R, vb, m, .call c :: ops => paintsH posInf R vb (m.step posInf c) ops
+
+theorem paintsH_regCall (posInf : α) (R : Rect) (vb : ViewBox α) (m : VM α) (c : Call α) (ops : List (RenOp α))
+    (hc : isRegCall c = true) :
+    paintsH (β := β) posInf R vb m (.call c :: ops) = paintsH posInf R vb (m.step posInf c) ops := by
+  cases c <;> first | rfl | cases hc
+
+theorem paintsH_segs (posInf : α) (R : Rect) (vb : ViewBox α) (m : VM α) (segs : List (Call α))
+    (rest : List (RenOp α)) (hs : ∀ s ∈ segs, isSegment s = true) :
+    paintsH (β := β) posInf R vb m (segs.map .call ++ rest) = paintsH posInf R vb m rest := by
+  induction segs with
+  | nil => rfl
+  | cons c cs ih =>
+    have hc := hs c (List.mem_cons_self ..)
+    have h1 : paintsH (β := β) posInf R vb m (.call c :: (cs.map .call ++ rest)) =
+        paintsH posInf R vb m (cs.map .call ++ rest) := by
+      cases c <;> first | rfl | cases hc
+    rw [List.map_cons, List.cons_append, h1]
+    exact ih (fun s h => hs s (List.mem_cons_of_mem _ h))
+
+/-- the histories of the documented use: register-setting calls, `Reset`, `SetRasterizer` and complete
+    paths `StartPath, drawing calls …, ClosePathEndPath`, in any order and any number (several graphics,
+    each at its own size, `SetRasterizer` also between the paths of one graphic) -/
+inductive HBody : List (RenOp α) → Prop
+  | nil : HBody []
+  | styling (c : Call α) (ops : List (RenOp α)) : isRegCall c = true → HBody ops → HBody (.call c :: ops)
+  | reset (vb : ViewBox α) (pal : Palette) (ops : List (RenOp α)) : HBody ops → HBody (.call (.reset vb pal) :: ops)
+  | rast (r : Rect) (ops : List (RenOp α)) : HBody ops → HBody (.rast r :: ops)
+  | path (adj : UInt8) (x y : α) (segs : List (Call α)) (ops : List (RenOp α)) :
+      (∀ s ∈ segs, isSegment s = true) → HBody ops →
+      HBody (.call (.startPath adj x y) :: (segs.map .call ++ .call .closeEnd :: ops))
+
+theorem regs_geom {z z' : Renderer α β} (h : regs z' = regs z) : geom z' = geom z := by
+  simp only [regs, Prod.mk.injEq] at h
+  obtain ⟨h1, h2, h3, h4, h5, h6, -⟩ := h
+  simp only [geom, h1, h2, h3, h4, h5, h6]
+
+theorem geom_r {z z' : Renderer α β} (h : geom z' = geom z) : z'.r = z.r ∧ z'.viewBox = z.viewBox := by
+  simp only [geom, Prod.mk.injEq] at h
+  exact ⟨h.1, h.2.1⟩
+
+/-- **(e) C04 over histories, general form.**  From any state whose transform is the recalculated one:
+    the `Draw` calls of a history are, in order, exactly the machine's paints, each prescribed at the
+    height of — realised for — and drawn over — the rectangle current at its `StartPath`. -/
+theorem body_refines_hist (arc : ArcFn α β) (hArc : ArcPure arc) (posInf : α) (h : List (RenOp α))
+    (hb : HBody h) : ∀ z : Renderer α β, TransformOK z →
+      drawsOf (z.runOps arc posInf h).2 = paintsH posInf z.r z.viewBox (absVM z) h := by
+  induction hb with
+  | nil => intro z _; rfl
+  | styling c ops hc _ ih =>
+    intro z hz
+    obtain ⟨hops, habs⟩ := styling_refines arc posInf z c (regCall_styling hc)
+    have hnr : isReset c = false := by cases c <;> first | rfl | cases hc
+    obtain ⟨hr, hv⟩ := geom_r (step_geom arc posInf z c hnr)
+    rw [runOps_cons, stepOp_call, hops, List.nil_append, ih _ (transformOK_step arc posInf z c hz),
+      paintsH_regCall _ _ _ _ _ _ hc, habs, hr, hv]
+  | reset vb pal ops _ ih =>
+    intro z hz
+    rw [runOps_reset, ih _ (transformOK_reset z posInf vb pal), abs_reset]
+    rfl
+  | rast r ops _ ih =>
+    intro z hz
+    rw [runOps_rast, ih _ (transformOK_setRasterizer z r)]
+    rfl
+  | path adj x y segs ops hs _ ih =>
+    intro z hz
+    have hl : (RenOp.call (.startPath adj x y) :: (segs.map RenOp.call ++ .call .closeEnd :: ops)) =
+        (Call.startPath adj x y :: (segs ++ [.closeEnd])).map RenOp.call ++ ops := by simp
+    have hvm : paintsH (β := β) posInf z.r z.viewBox (absVM z)
+        (.call (.startPath adj x y) :: (segs.map .call ++ .call .closeEnd :: ops)) =
+        (match (absVM z).paintChoice z.r.dy adj with
+         | some p => (z.r, realiseAt z.r z.viewBox p) :: paintsH posInf z.r z.viewBox (absVM z) ops
+         | none => paintsH posInf z.r z.viewBox (absVM z) ops) := by
+      have h1 : paintsH (β := β) posInf z.r z.viewBox (absVM z)
+          (.call (.startPath adj x y) :: (segs.map .call ++ .call .closeEnd :: ops)) =
+          (match (absVM z).paintChoice z.r.dy adj with
+           | some p => (z.r, realiseAt z.r z.viewBox p) ::
+               paintsH posInf z.r z.viewBox (absVM z) (segs.map .call ++ .call .closeEnd :: ops)
+           | none => paintsH posInf z.r z.viewBox (absVM z) (segs.map .call ++ .call .closeEnd :: ops)) := rfl
+      have h2 : paintsH (β := β) posInf z.r z.viewBox (absVM z) (segs.map .call ++ .call .closeEnd :: ops) =
+          paintsH posInf z.r z.viewBox (absVM z) ops := by
+        rw [paintsH_segs _ _ _ _ _ _ hs]; rfl
+      rw [h1, h2]
+    rw [hvm, hl, runOps_append, runOps_calls, drawsOf_append]
+    cases hp : (absVM z).paintChoice z.r.dy adj with
+    | none =>
+      rw [path_silent arc posInf z adj x y segs hs hp]
+      have hz' : TransformOK ({ z with fill := (choose z adj).1, disabled := true } : Renderer α β) := hz
+      rw [ih _ hz']
+      rfl
+    | some p =>
+      obtain ⟨mid, hmid, hops, hr⟩ := path_drawn_once arc hArc posInf z adj x y segs hs p hp
+      have hg := regs_geom hr
+      obtain ⟨h1, h2⟩ := geom_r hg
+      rw [hops, ih _ (transformOK_of_geom hg hz), regs_abs hr, h1, h2, realise_of_transformOK z hz]
+      simp [drawsOf, drawsOf_append, drawsOf_pathOps mid hmid]
+
+/-- **(e) `render_refines_vm` over histories, starting with `SetRasterizer`**, from ANY state `z0` (any
+    earlier history): the draws are the machine's paints for the rectangle `r` until the next
+    `SetRasterizer`, for the viewBox `z0` holds until the next `Reset`. -/
+theorem render_refines_vm_rast (arc : ArcFn α β) (hArc : ArcPure arc) (posInf : α) (z0 : Renderer α β)
+    (r : Rect) (h : List (RenOp α)) (hb : HBody h) :
+    drawsOf (z0.runOps arc posInf (.rast r :: h)).2 = paintsH posInf (Rect.norm r) z0.viewBox (absVM z0) h := by
+  rw [runOps_rast, body_refines_hist arc hArc posInf h hb _ (transformOK_setRasterizer z0 r)]
+  rfl
+
+/-- **(e) `render_refines_vm` over histories, starting with `Reset`**, from ANY state `z0`: nothing of the
+    earlier history but the rectangle survives. -/
+theorem render_refines_vm_hist (arc : ArcFn α β) (hArc : ArcPure arc) (posInf : α) (z0 : Renderer α β)
+    (vb : ViewBox α) (pal : Palette) (h : List (RenOp α)) (hb : HBody h) :
+    drawsOf (z0.runOps arc posInf (.call (.reset vb pal) :: h)).2 =
+      paintsH posInf z0.r vb (VM.init posInf pal) h := by
+  rw [runOps_reset, body_refines_hist arc hArc posInf h hb _ (transformOK_reset z0 posInf vb pal), abs_reset]
+  rfl
+
+/-- the whole documented life of a Renderer: ANY earlier history `A` (from any state), then
+    `SetRasterizer r; Reset vb pal; h` — the draws after `A` depend on `r`, `vb`, `pal`, `h` only. -/
+theorem render_refines_vm_reuse (arc : ArcFn α β) (hArc : ArcPure arc) (posInf : α) (z0 : Renderer α β)
+    (A : List (RenOp α)) (r : Rect) (vb : ViewBox α) (pal : Palette) (h : List (RenOp α)) (hb : HBody h) :
+    drawsOf (z0.runOps arc posInf (A ++ .rast r :: .call (.reset vb pal) :: h)).2 =
+      drawsOf (z0.runOps arc posInf A).2 ++ paintsH posInf (Rect.norm r) vb (VM.init posInf pal) h := by
+  rw [runOps_append, drawsOf_append, runOps_rast, render_refines_vm_hist arc hArc posInf _ vb pal h hb]
+  rfl
+
+/-! ## (d) the gradient matrix is built from the CURRENT transform -/
+
+/-- **(d), state form.**  Same registers, another rectangle: the matrix `initGradient` builds right after
+    `SetRasterizer r` is the one of `r` (and of the viewBox in force) — whatever scale `z` had before. -/
+theorem gradient_matrix_after_rast (z : Renderer α β) (r : Rect) (g : GradSpec α) :
+    pix2Grad (z.setRasterizer r) g = gradMatrixAt (Rect.norm r) z.viewBox g :=
+  pix2Grad_of_transformOK _ (transformOK_setRasterizer z r) g
+
+/-- **(d), history form.**  After ANY history `h`, `SetRasterizer r` and any calls `cs` other than `Reset`
+    (in particular the calls that load the gradient's registers, and earlier paths — a gradient built for
+    an earlier path is never reused): every paint `StartPath` realises is realised for `r` and the viewBox
+    of the last `Reset`; for a gradient this is `Gradient.init` with the matrix `gradMatrixAt (norm r) vb`. -/
+theorem gradient_uses_current_transform (arc : ArcFn α β) (posInf : α) (z0 : Renderer α β)
+    (h : List (RenOp α)) (r : Rect) (cs : List (Call α)) (hcs : ∀ c ∈ cs, isReset c = false) :
+    let z := (z0.runOps arc posInf (h ++ .rast r :: cs.map .call)).1
+    realise z = realiseAt (Rect.norm r) (viewBoxAfter z0.viewBox h) ∧
+    ∀ g, pix2Grad z g = gradMatrixAt (Rect.norm r) (viewBoxAfter z0.viewBox h) g := by
+  intro z
+  obtain ⟨h1, h2, -⟩ := setRasterizer_transform arc posInf z0 h r cs hcs
+  have hz : TransformOK z := transformOK_of_settled arc posInf _ z0 (by simp [settles])
+  have e1 : z.r = Rect.norm r := h1
+  have e2 : z.viewBox = viewBoxAfter z0.viewBox h := h2
+  refine ⟨?_, fun g => ?_⟩
+  · rw [realise_of_transformOK z hz, e1, e2]
+  · rw [pix2Grad_of_transformOK z hz, e1, e2]
+
+/-- an enabled `StartPath` whose paint is a gradient got that gradient from `initGradient`, run in the
+    state `StartPath` was called in, on the colour register it selected (a stale `fill` is only kept by a
+    DISABLED path) -/
+theorem startPath_gradient_fill (z : Renderer α β) (adj : UInt8) (x y : α) (g : Gradient β)
+    (hen : (z.startPath adj x y).1.disabled = false) (hf : (z.startPath adj x y).1.fill = .gradient g) :
+    z.initGradient (z.cReg.get6 (z.cSel - adj)) = some g := by
+  by_cases hn : (choose z adj).2 = true ∨ ¬ lodOK z
+  · rw [startPath_eq, if_pos hn] at hen; cases hen
+  · rw [startPath_eq, if_neg hn] at hf
+    have h1 : (choose z adj).1 = .gradient g := hf
+    have h2 : (choose z adj).2 = false := by
+      cases hc : (choose z adj).2
+      · rfl
+      · exact absurd (Or.inl hc) hn
+    unfold choose at h1 h2
+    dsimp only at h1 h2
+    by_cases hp : (z.cReg.get6 (z.cSel - adj)).validPremul = true
+    · rw [if_pos hp] at h1; cases h1
+    · rw [if_neg hp] at h1 h2
+      by_cases hg : (z.cReg.get6 (z.cSel - adj)).validGradient = true
+      · rw [if_pos hg] at h1 h2
+        cases hi : z.initGradient (z.cReg.get6 (z.cSel - adj)) with
+        | none => rw [hi] at h2; cases h2
+        | some g' =>
+          rw [hi] at h1
+          simp only [Paint.gradient.injEq] at h1
+          rw [h1]
+      · rw [if_neg hg] at h2; cases h2
+
 end Ivg.RenderHist
